@@ -6,7 +6,8 @@ From Coq Require Import List NArith Bool Arith Lia.
 Import ListNotations.
 From Mos Require Import model.Utf model.Nom Gen.ParserTables model.Parser model.Display spec.Lossless spec.LayoutEquiv
   proofs.NomProofs proofs.TriviaProofs proofs.ParserProofs proofs.C05Proofs proofs.ParserBlind.
-From Mos Require Gen.BinOps Gen.ExprGrammar.
+From Mos Require Gen.BinOps Gen.ExprGrammar proofs.ParserProgressProofs.
+Module PP := ParserProgressProofs.
 Open Scope N_scope.
 
 (* ================================================================ part 1: fuel independence (blindness, two fuels) *)
@@ -250,8 +251,11 @@ Lemma mono_value {A} (v : A) : mono (value_p v). Proof. intros st i H. exact H. 
 (* ---------------------------------------------------------------- the relation on texts *)
 Definition blank (c : N) : bool := (c =? 32) || (c =? 9) || (c =? 10) || (c =? 13).
 Definition t5 (c : N) : bool := blank c || (c =? 47).
-Definition slhead (z : text) : Prop := match z with c :: _ => c = 32 \/ c = 9 \/ c = 47 | [] => False end.
-Definition nlhead (z : text) : Prop := match z with c :: _ => c = 10 \/ c = 13 | [] => False end.
+(* at the start of trivia, or at the end of the text *)
+Definition thead (z : text) : Prop := match z with c :: _ => t5 c = true | [] => True end.
+Definition nlhead (z : text) : Prop := match z with c :: _ => c = 10 \/ c = 13 | [] => True end.
+Lemma nlhead_thead z : nlhead z -> thead z.
+Proof. destruct z as [|c t]; cbn; [auto|]. intros [H|H]; subst; reflexivity. Qed.
 Definition slash_ok (z : text) : Prop := match z with c :: _ => c <> 47 /\ c <> 42 | [] => True end.
 (* from z the multi-line (single-line) trivia parser goes to w, in every state and at every position, silently *)
 Definition mlead (z w : text) : Prop := forall st o, exists T r, opt multiline_trivia st (mkIn o z) = (st, Ok T r) /\ rem r = w.
@@ -259,15 +263,18 @@ Definition slead (z w : text) : Prop := forall st o, exists T r, opt trivia_p st
 
 (* lay l z z': z and z' are the same characters (none of them blank, a quote, or the start of a comment) with trivia at
    the same places.  l bounds what may stand at the front: 0 a character, 1 also trivia that starts with a line break,
-   2 anything.  A trivia place is described by what the trivia parsers do there. *)
+   2 anything.  A trivia place is described by what the trivia parsers do there.  At a place of the general kind (lay_sl)
+   each text starts with a blank, tab, `/`, CR or LF -- one may have single-line trivia in front of the line break and the
+   other none (`nop // c<LF>` against `nop<LF>`): the single-line parser then consumes in one run only.  One of the two
+   texts may also be at its end there (trailing trivia after the last statement in one text only). *)
 Inductive lay : nat -> text -> text -> Prop :=
 | lay_nil l : lay l [] []
 | lay_chunk l c z z' : blank c = false -> c <> 34 -> (c = 47 -> slash_ok z /\ slash_ok z') -> lay 2 z z' -> lay l (c :: z) (c :: z')
 | lay_nl l z z' w w' : (1 <= l)%nat -> nlhead z -> nlhead z' -> mlead z w -> mlead z' w' -> lay 0 w w' ->
-    (length w < length z)%nat -> (length w' < length z')%nat -> lay l z z'
-| lay_sl l z z' y y' w w' : (2 <= l)%nat -> slhead z -> slhead z' -> slead z y -> slead z' y' -> mlead z w -> mlead z' w' ->
+    (length w <= length z)%nat -> (length w' <= length z')%nat -> lay l z z'
+| lay_sl l z z' y y' w w' : (2 <= l)%nat -> thead z -> thead z' -> slead z y -> slead z' y' -> mlead z w -> mlead z' w' ->
     lay 1 y y' -> lay 0 w w' ->
-    (length y < length z)%nat -> (length y' < length z')%nat -> (length w < length z)%nat -> (length w' < length z')%nat -> lay l z z'.
+    (length y <= length z)%nat -> (length y' <= length z')%nat -> (length w <= length z)%nat -> (length w' <= length z')%nat -> lay l z z'.
 
 Lemma lay_le l m z z' : lay l z z' -> (l <= m)%nat -> lay m z z'.
 Proof.
@@ -280,18 +287,18 @@ Qed.
 Lemma lay2_of l z z' : lay l z z' -> (l <= 2)%nat -> lay 2 z z'. Proof. intros; eapply lay_le; eassumption. Qed.
 
 Definition nlc (c : N) : Prop := c = 10 \/ c = 13.
+Definition stop (l : nat) (z : text) : Prop :=
+  match z with [] => True | c :: _ => t5 c = true /\ ((l <= 1)%nat -> nlc c) end.
 Lemma lay_inv l z z' : lay l z z' ->
-  (z = [] /\ z' = []) \/
   (exists c t t', z = c :: t /\ z' = c :: t' /\ blank c = false /\ c <> 34 /\ (c = 47 -> slash_ok t /\ slash_ok t') /\ lay 2 t t') \/
-  (exists c t c' t', z = c :: t /\ z' = c' :: t' /\ t5 c = true /\ t5 c' = true /\ ((l <= 1)%nat -> nlc c /\ nlc c')).
+  (stop l z /\ stop l z').
 Proof.
   intros H. destruct H.
-  - left. auto.
-  - right. left. exists c, z, z'. repeat split; auto; apply H1; assumption.
-  - right. right. destruct z as [|c t]; [contradiction|]. destruct z' as [|c' t']; [contradiction|]. exists c, t, c', t'.
-    cbn in H0, H1. repeat split; auto. all: try (destruct H0; subst; reflexivity). all: try (destruct H1; subst; reflexivity).
-  - right. right. destruct z as [|c t]; [contradiction|]. destruct z' as [|c' t']; [contradiction|]. exists c, t, c', t'.
-    cbn in H0, H1. repeat split; auto; try lia. all: try (destruct H0 as [?|[?|?]]; subst; reflexivity). all: try (destruct H1 as [?|[?|?]]; subst; reflexivity).
+  - right. split; exact I.
+  - left. exists c, z, z'. repeat split; auto; apply H1; assumption.
+  - right. pose proof (nlhead_thead _ H0) as T0. pose proof (nlhead_thead _ H1) as T1.
+    split; [destruct z as [|c t]|destruct z' as [|c t]]; cbn in *; auto.
+  - right. split; [destruct z as [|c t]|destruct z' as [|c t]]; cbn in *; auto; split; auto; lia.
 Qed.
 
 (* ---------------------------------------------------------------- where no trivia starts *)
@@ -324,31 +331,30 @@ Proof.
 Qed.
 
 (* the single-line trivia parser in front of a text of level 2: it leads to a text of level 1 *)
-Definition tprog (z y z' y' : text) : Prop := ((length y < length z)%nat /\ (length y' < length z')%nat) \/ (y = z /\ y' = z').
+Definition tprog (z y z' y' : text) : Prop := (length y <= length z)%nat /\ (length y' <= length z')%nat.
 Lemma sl_step z z' : lay 2 z z' -> exists y y', (lay 1 y y' /\ tprog z y z' y') /\ slead z y /\ slead z' y'.
 Proof.
   intros H. inversion H; subst.
-  - exists [], []. split; [split; [apply lay_nil|right; auto]|]. split; intros st o; exists None, (mkIn o []); (split; [|reflexivity]); apply opt_trivia_here, trivia_impl_none; exact I.
-  - exists (c :: z0), (c :: z'0). split; [split; [apply lay_chunk; assumption|right; auto]|].
+  - exists [], []. split; [split; [apply lay_nil|split; lia]|]. split; intros st o; exists None, (mkIn o []); (split; [|reflexivity]); apply opt_trivia_here, trivia_impl_none; exact I.
+  - exists (c :: z0), (c :: z'0). split; [split; [apply lay_chunk; assumption|split; lia]|].
     split; intros st o; eexists None, (mkIn o _); (split; [|reflexivity]); apply opt_trivia_here, trivia_impl_none; (split; [apply blank_space; assumption|]); intros E; apply H2; exact E.
-  - exists z, z'. split; [split; [eapply lay_nl; eauto|right; auto]|].
-    destruct z as [|c t]; [contradiction|]. destruct z' as [|c' t']; [contradiction|]. cbn in H1, H2.
+  - exists z, z'. split; [split; [eapply lay_nl; eauto|split; lia]|].
     split; intros st o; eexists None, (mkIn o _); (split; [|reflexivity]); apply opt_trivia_here, trivia_impl_none.
-    + split; [destruct H1; subst; reflexivity|]. intros E. destruct H1; subst; discriminate.
-    + split; [destruct H2; subst; reflexivity|]. intros E. destruct H2; subst; discriminate.
-  - exists y, y'. split; [split; [assumption|left; auto]|auto].
+    + destruct z as [|c t]; [exact I|]. cbn in H1. split; [destruct H1; subst; reflexivity|]. intros E. destruct H1; subst; discriminate.
+    + destruct z' as [|c t]; [exact I|]. cbn in H2. split; [destruct H2; subst; reflexivity|]. intros E. destruct H2; subst; discriminate.
+  - exists y, y'. split; [split; [assumption|split; assumption]|auto].
 Qed.
 (* the multi-line trivia parser: to a text of level 0 *)
 Lemma ml_step l z z' : lay l z z' -> exists w w', (lay 0 w w' /\ tprog z w z' w') /\ mlead z w /\ mlead z' w'.
 Proof.
   intros H. inversion H; subst.
-  - exists [], []. split; [split; [apply lay_nil|right; auto]|]. split; intros st o; exists None, (mkIn o []); (split; [|reflexivity]);
+  - exists [], []. split; [split; [apply lay_nil|split; lia]|]. split; intros st o; exists None, (mkIn o []); (split; [|reflexivity]);
       (apply opt_multiline_here; [apply trivia_impl_none|apply newline_none]; exact I).
-  - exists (c :: z0), (c :: z'0). split; [split; [apply lay_chunk; assumption|right; auto]|].
+  - exists (c :: z0), (c :: z'0). split; [split; [apply lay_chunk; assumption|split; lia]|].
     split; intros st o; eexists None, (mkIn o _); (split; [|reflexivity]);
       (apply opt_multiline_here; [apply trivia_impl_none; split; [apply blank_space; assumption|intros E; apply H2; exact E]|apply newline_none, blank_nl; assumption]).
-  - exists w, w'. split; [split; [assumption|left; auto]|auto].
-  - exists w, w'. split; [split; [assumption|left; auto]|auto].
+  - exists w, w'. split; [split; [assumption|split; assumption]|auto].
+  - exists w, w'. split; [split; [assumption|split; assumption]|auto].
 Qed.
 
 Lemma lay_to2 l z z' : lay l z z' -> lay 2 z z'.
@@ -380,6 +386,8 @@ Qed.
 
 Definition rej (l : nat) (f : N -> bool) : Prop := forall c, t5 c = true -> ((l <= 1)%nat -> nlc c) -> f c = false.
 
+Lemma take_while_stop f z : rej 2 f -> thead z -> take_while f z = ([], z).
+Proof. intros Hf H. destruct z as [|c t]; [reflexivity|]. cbn in *. rewrite (Hf c H); [reflexivity|]. intros; lia. Qed.
 Lemma take_while_lay f : rej 2 f -> forall l z z', lay l z z' ->
   exists a y y', take_while f z = (a, y) /\ take_while f z' = (a, y') /\ lay 2 y y'.
 Proof.
@@ -389,13 +397,9 @@ Proof.
     + destruct IHlay as [a [y [y' [E1 [E2 Hy]]]]]. rewrite E1, E2. exists (c :: a), y, y'. auto.
     + exists [], (c :: z), (c :: z'). repeat split. apply lay_chunk; assumption.
   - assert (Hz : lay 2 z z') by (eapply lay_nl; eauto).
-    destruct z as [|c t]; [contradiction|]. destruct z' as [|c' t']; [contradiction|]. cbn in H0, H1. cbn [take_while].
-    rewrite (Hf c), (Hf c'); try (intros; lia). { exists [], (c :: t), (c' :: t'). auto. }
-    all: unfold t5, blank; try (destruct H1; subst; reflexivity); try (destruct H0; subst; reflexivity).
+    exists [], z, z'. repeat split; [apply take_while_stop, nlhead_thead|apply take_while_stop, nlhead_thead|]; assumption.
   - assert (Hz : lay 2 z z') by (eapply lay_sl; eauto).
-    destruct z as [|c t]; [contradiction|]. destruct z' as [|c' t']; [contradiction|]. cbn in H0, H1. cbn [take_while].
-    rewrite (Hf c), (Hf c'); try (intros; lia). { exists [], (c :: t), (c' :: t'). auto. }
-    all: unfold t5, blank; try (destruct H1 as [?|[?|?]]; subst; reflexivity); try (destruct H0 as [?|[?|?]]; subst; reflexivity).
+    exists [], z, z'. repeat split; [apply take_while_stop|apply take_while_stop|]; assumption.
 Qed.
 Lemma take_while1_lexp l f : rej 2 f -> lexp l eq (take_while1_p f).
 Proof.
@@ -406,10 +410,10 @@ Qed.
 Lemma satisfy_lexp l f : rej l f -> lexp l eq (satisfy f).
 Proof.
   intros Hf. split; [intros st i; unfold satisfy; destruct (rem i) as [|c t]; [reflexivity|destruct (f c); reflexivity]|].
-  intros st st' i i' Hl. unfold satisfy. destruct (lay_inv _ _ _ Hl) as [[E1 E2]|[[c [t [t' [E1 [E2 [_ [_ [_ Ht]]]]]]]]|[c [t [c' [t' [E1 [E2 [T1 [T2 HL]]]]]]]]]]; rewrite E1, E2.
-  - exact I.
-  - destruct (f c); cbn; [|exact I]. split; [reflexivity|]. split; [exact Ht|]. exists [c]. auto.
-  - rewrite (Hf c), (Hf c'); auto; try (intros HH; apply HL; exact HH). exact I.
+  intros st st' i i' Hl. unfold satisfy. destruct (lay_inv _ _ _ Hl) as [[c [t [t' [E1 [E2 [_ [_ [_ Ht]]]]]]]]|[S1 S2]].
+  - rewrite E1, E2. destruct (f c); cbn; [|exact I]. split; [reflexivity|]. split; [exact Ht|]. exists [c]. auto.
+  - destruct (rem i) as [|c t], (rem i') as [|c' t']; cbn in S1, S2;
+      try (rewrite (Hf c (proj1 S1) (proj2 S1))); try (rewrite (Hf c' (proj1 S2) (proj2 S2))); exact I.
 Qed.
 Lemma char_lexp l c : t5 c = false -> lexp l eq (char_p c).
 Proof. intros H. apply satisfy_lexp. intros d Hd _. apply N.eqb_neq. intros E. subst. congruence. Qed.
@@ -423,12 +427,14 @@ Proof.
   induction t as [|x t IH]; intros Ht l z z' Hl.
   - cbn. split; [reflexivity|]. intros _. split; [eapply lay_to2; eassumption|reflexivity].
   - cbn [forallb] in Ht. apply andb_true_iff in Ht. destruct Ht as [Hx Ht]. apply negb_true_iff in Hx.
-    destruct (lay_inv _ _ _ Hl) as [[E1 E2]|[[c [u [u' [E1 [E2 [_ [_ [_ Hu]]]]]]]]|[c [u [c' [u' [E1 [E2 [T1 [T2 _]]]]]]]]]]; rewrite E1, E2; cbn [is_prefix length skipn firstn].
-    + split; [reflexivity|discriminate].
-    + destruct (IH Ht _ _ _ Hu) as [I1 I2]. rewrite I1. split; [reflexivity|]. intros H. apply andb_true_iff in H. destruct H as [_ H].
+    assert (K : forall z, stop l z -> is_prefix (x :: t) z = false).
+    { intros [|c u] Hs; [reflexivity|]. cbn in *. destruct Hs as [T1 _].
+      assert (A : (c =? x) = false) by (apply N.eqb_neq; intros E; subst; congruence). rewrite A. reflexivity. }
+    destruct (lay_inv _ _ _ Hl) as [[c [u [u' [E1 [E2 [_ [_ [_ Hu]]]]]]]]|[S1 S2]].
+    + rewrite E1, E2; cbn [is_prefix length skipn firstn].
+      destruct (IH Ht _ _ _ Hu) as [I1 I2]. rewrite I1. split; [reflexivity|]. intros H. apply andb_true_iff in H. destruct H as [_ H].
       rewrite <- I1 in H. destruct (I2 H) as [J1 J2]. split; [assumption|]. f_equal. assumption.
-    + assert (A : (c =? x) = false) by (apply N.eqb_neq; intros E; subst; congruence).
-      assert (B : (c' =? x) = false) by (apply N.eqb_neq; intros E; subst; congruence). rewrite A, B. split; [reflexivity|discriminate].
+    + rewrite (K z S1), (K z' S2). split; [reflexivity|discriminate].
 Qed.
 Lemma tag_lexp2 l t : forallb (fun c => negb (t5 c)) t = true -> lexp l eq (tag t).
 Proof.
@@ -442,14 +448,15 @@ Lemma tag_lexp1 c t : blank c = false -> forallb (fun c => negb (t5 c)) t = true
 Proof.
   intros Hc Ht. split; [intros st i; unfold tag; destruct (is_prefix (c :: t) (rem i)); reflexivity|].
   intros st st' i i' Hl. unfold tag.
-  destruct (lay_inv _ _ _ Hl) as [[E1 E2]|[[d [u [u' [E1 [E2 [_ [_ [_ Hu]]]]]]]]|[d [u [d' [u' [E1 [E2 [T1 [T2 HL]]]]]]]]]]; rewrite E1, E2; cbn [is_prefix length skipn firstn].
-  - exact I.
+  assert (K : forall z, stop 1 z -> is_prefix (c :: t) z = false).
+  { intros [|d u] Hs; [reflexivity|]. cbn in *. destruct Hs as [_ N1]. specialize (N1 ltac:(lia)).
+    assert (A : (d =? c) = false) by (apply N.eqb_neq; intros E; subst; destruct N1; subst; discriminate). rewrite A. reflexivity. }
+  destruct (lay_inv _ _ _ Hl) as [[d [u [u' [E1 [E2 [_ [_ [_ Hu]]]]]]]]|[S1 S2]].
+  2: { rewrite (K _ S1), (K _ S2). exact I. }
+  rewrite E1, E2; cbn [is_prefix length skipn firstn].
   - destruct (is_prefix_lay t Ht _ _ _ Hu) as [I1 I2]. rewrite <- I1. destruct ((d =? c) && is_prefix t u) eqn:Ep; cbn; [|exact I].
     apply andb_true_iff in Ep. destruct Ep as [_ Ep]. destruct (I2 Ep) as [J1 J2]. split; [f_equal; assumption|]. split; [assumption|].
     exists (d :: firstn (length t) u). cbn. split; f_equal; [symmetry; apply firstn_skipn|]. rewrite J2. symmetry. apply firstn_skipn.
-  - destruct (HL ltac:(lia)) as [N1 N2].
-    assert (A : (d =? c) = false) by (apply N.eqb_neq; intros E; subst; destruct N1; subst; discriminate).
-    assert (B : (d' =? c) = false) by (apply N.eqb_neq; intros E; subst; destruct N2; subst; discriminate). rewrite A, B. exact I.
 Qed.
 
 Lemma t5_cases c : t5 c = true -> c = 32 \/ c = 9 \/ c = 10 \/ c = 13 \/ c = 47.
@@ -475,8 +482,27 @@ Proof.
 Qed.
 Lemma lay_starts_ident l b b' : lay l b b' -> starts_ident b = starts_ident b'.
 Proof.
-  intros H. destruct (lay_inv _ _ _ H) as [[E1 E2]|[[c [u [u' [E1 [E2 _]]]]]|[c [u [c' [u' [E1 [E2 [T1 [T2 _]]]]]]]]]]; rewrite E1, E2; cbn; auto.
-  rewrite (t5_not_ident c T1), (t5_not_ident c' T2). reflexivity.
+  intros H. assert (K : forall z, stop l z -> starts_ident z = false).
+  { intros [|c u] Hs; [reflexivity|]. cbn in *. apply t5_not_ident, Hs. }
+  destruct (lay_inv _ _ _ H) as [[c [u [u' [E1 [E2 _]]]]]|[S1 S2]]; [rewrite E1, E2; reflexivity|]. rewrite (K _ S1), (K _ S2). reflexivity.
+Qed.
+Lemma take_bytes_stop z n : thead z -> match take_bytes z (S n) with BExact a b => existsb t5 a = true | _ => True end.
+Proof.
+  intros H. destruct z as [|c t]; [exact I|]. cbn in H.
+  destruct (t5_cases c H) as [?|[?|[?|[?|?]]]]; subst c; cbn; rewrite Nat.sub_0_r; destruct (take_bytes t n); cbn; auto.
+Qed.
+Lemma take_bytes_stops z z' n : lay 2 z z' -> thead z -> thead z' ->
+  match take_bytes z n, take_bytes z' n with
+  | BExact a b, BExact a' b' => (a = a' /\ lay 2 b b' /\ z = a ++ b /\ z' = a ++ b') \/ (existsb t5 a = true /\ existsb t5 a' = true)
+  | BExact a b, _ => existsb t5 a = true
+  | _, BExact a' b' => existsb t5 a' = true
+  | _, _ => True
+  end.
+Proof.
+  intros Hz H H'. destruct n.
+  - destruct z, z'; cbn; left; repeat split; assumption.
+  - pose proof (take_bytes_stop z n H) as K. pose proof (take_bytes_stop z' n H') as K'.
+    destruct (take_bytes z (S n)), (take_bytes z' (S n)); auto.
 Qed.
 Lemma take_bytes_lay l z z' : lay l z z' -> forall n,
   match take_bytes z n, take_bytes z' n with
@@ -495,14 +521,8 @@ Proof.
     + cbn [existsb]. rewrite IHlay. apply orb_true_r.
     + cbn [existsb]. rewrite IHlay. apply orb_true_r.
     + cbn [existsb]. rewrite IHlay. apply orb_true_r.
-  - assert (Hz : lay 2 z z') by (eapply lay_nl; eauto).
-    destruct z as [|c t]; [contradiction|]. destruct z' as [|c' t']; [contradiction|]. cbn in H0, H1.
-    destruct n; [cbn; left; repeat split; assumption|].
-    destruct H0; subst c; destruct H1; subst c'; cbn; rewrite Nat.sub_0_r; destruct (take_bytes t n), (take_bytes t' n); cbn; auto.
-  - assert (Hz : lay 2 z z') by (eapply lay_sl; eauto).
-    destruct z as [|c t]; [contradiction|]. destruct z' as [|c' t']; [contradiction|]. cbn in H0, H1.
-    destruct n; [cbn; left; repeat split; assumption|].
-    destruct H0 as [?|[?|?]]; subst c; destruct H1 as [?|[?|?]]; subst c'; cbn; rewrite Nat.sub_0_r; destruct (take_bytes t n), (take_bytes t' n); cbn; auto.
+  - assert (Hz : lay 2 z z') by (eapply lay_nl; eauto). apply nlhead_thead in H0, H1. apply take_bytes_stops; assumption.
+  - assert (Hz : lay 2 z z') by (eapply lay_sl; eauto). apply take_bytes_stops; assumption.
 Qed.
 Lemma tag_no_case_lexp l t : forallb (fun c => negb (t5 c)) t = true -> lexp l eq (tag_no_case t).
 Proof.
@@ -627,21 +647,9 @@ Definition SRC (st st' : pstate) : Prop := clean st /\ clean st' /\ anon_idx st 
 Definition dirty2 (s s' : pstate) : Prop := errors s <> [] /\ errors s' <> [].
 (* both runs consumed something, or both consumed nothing *)
 Definition prog (i r i' r' : input) : Prop := tprog (rem i) (rem r) (rem i') (rem r').
-Lemma prog_stay i i' : prog i i i' i'. Proof. right. auto. Qed.
+Lemma prog_stay i i' : prog i i i' i'. Proof. split; lia. Qed.
 Lemma prog_trans i r u i' r' u' : prog i r i' r' -> prog r u r' u' -> prog i u i' u'.
-Proof.
-  unfold prog, tprog. intros [[A B]|[A B]] [[C D]|[C D]].
-  - left. lia.
-  - left. rewrite C, D. auto.
-  - left. rewrite <- A, <- B. auto.
-  - right. rewrite C, D. auto.
-Qed.
-Lemma prog_eqb i r i' r' : prog i r i' r' -> (length (rem r) =? length (rem i))%nat = (length (rem r') =? length (rem i'))%nat.
-Proof.
-  intros [[A B]|[A B]].
-  - rewrite (proj2 (Nat.eqb_neq _ _)) by lia. rewrite (proj2 (Nat.eqb_neq _ _)) by lia. reflexivity.
-  - rewrite A, B, !Nat.eqb_refl. reflexivity.
-Qed.
+Proof. unfold prog, tprog. intros [A B] [C D]. split; lia. Qed.
 (* either both runs have reported something (then nothing more is claimed), or both are silent and the results correspond *)
 Definition LR {A} (RA : A -> A -> Prop) (i i' : input) (X X' : pstate * result A) : Prop :=
   dirty2 (fst X) (fst X') \/
@@ -667,7 +675,7 @@ Proof.
   intros [S H]. split; [intros st i Hd; rewrite S; exact Hd|].
   intros st st' i i' Hs Hl. specialize (H st st' i i' Hl). right. rewrite !S. split; [exact Hs|].
   destruct (snd (p st i)) as [v r| |], (snd (p st' i')) as [v' r'| |]; auto; try contradiction. destruct H as [H1 [H2 [a [E1 E2]]]]. split; [assumption|]. split; [assumption|].
-  unfold prog, tprog. rewrite E1, E2, !app_length. destruct a; [right; auto|left; cbn; lia].
+  unfold prog, tprog. rewrite E1, E2, !app_length. lia.
 Qed.
 
 Lemma dirty_pair {A B} (p : parser A) (q : parser B) st i : mono q -> errors (fst (p st i)) <> [] -> errors (fst (pair_p p q st i)) <> [].
@@ -799,28 +807,29 @@ Proof.
   lr_cases p st i st' i' H; try (right; split; cbn; auto; fail).
   destruct S as [[A1 A2] [[B1 B2] [C D]]]. destruct H as [Hv Hr]. cbn in *. rewrite C. right. split; [repeat split; cbn; auto|]. split; [apply W; assumption|assumption].
 Qed.
-(* many0 with the fuel each run computes from its own text *)
-Lemma many0_aux_lay {A} (RA : A -> A -> Prop) p : lay2 2 RA p ->
+(* many0 with the fuel each run computes from its own text; the elements consume something (so the no-progress test is
+   false in both runs, whatever trivia each of them skipped) *)
+Lemma many0_aux_lay {A} (RA : A -> A -> Prop) p : lay2 2 RA p -> consumes1 p ->
   forall f f' st st' i i', (length (rem i) < f)%nat -> (length (rem i') < f')%nat -> SRC st st' -> lay 2 (rem i) (rem i') ->
     LR (Forall2 RA) i i' (many0_aux f p st i) (many0_aux f' p st' i').
 Proof.
-  intros [M H] f. induction f as [|g IH]; intros f' st st' i i' Hf Hf' Hs Hl; [lia|]. destruct f' as [|g']; [lia|].
-  specialize (H st st' i i' Hs Hl). destruct H as [[D1 D2]|[S H]]; [left; split; apply dirty_many0; assumption|]. cbn [many0_aux].
-  destruct (p st i) as [s [v r| |a]], (p st' i') as [s' [v' r'| |a']]; cbn in S, H; try contradiction; try (right; split; cbn; auto; fail).
-  - destruct H as [Hv [Hr Hg]]. rewrite <- (prog_eqb _ _ _ _ Hg). destruct Hg as [[G1 G2]|[G1 G2]].
-    + rewrite (proj2 (Nat.eqb_neq _ _)) by lia.
-      assert (Hg : prog i r i' r') by (left; auto).
-      specialize (IH g' s s' r r' ltac:(lia) ltac:(lia) S Hr).
-      lr_cases2 (many0_aux g p) (many0_aux g' p) s r s' r' IH.
-      * destruct IH as [H1 [H2 H3]]. right. split; [assumption|]. cbn. split; [constructor; assumption|]. split; [assumption|]. eapply prog_trans; eassumption.
-      * right. split; cbn; auto.
-      * right. split; cbn; auto.
-    + rewrite G1, Nat.eqb_refl. right. split; cbn; auto.
-  - right. split; [exact S|]. cbn. split; [constructor|]. split; [assumption|apply prog_stay].
+  intros [M H] Hc f. induction f as [|g IH]; intros f' st st' i i' Hf Hf' Hs Hl; [lia|]. destruct f' as [|g']; [lia|].
+  specialize (H st st' i i' Hs Hl). destruct H as [[D1 D2]|[Sc H]]; [left; split; apply dirty_many0; assumption|]. cbn [many0_aux].
+  pose proof (Hc st i) as C1. pose proof (Hc st' i') as C2.
+  destruct (p st i) as [s [v r| |a]], (p st' i') as [s' [v' r'| |a']]; cbn in Sc, H; try contradiction; try (right; split; cbn; auto; fail).
+  - specialize (C1 _ _ _ eq_refl). specialize (C2 _ _ _ eq_refl). destruct H as [Hv [Hr Hg]].
+    rewrite (proj2 (Nat.eqb_neq (length (rem r)) (length (rem i)))) by lia.
+    rewrite (proj2 (Nat.eqb_neq (length (rem r')) (length (rem i')))) by lia.
+    specialize (IH g' s s' r r' ltac:(lia) ltac:(lia) Sc Hr).
+    lr_cases2 (many0_aux g p) (many0_aux g' p) s r s' r' IH.
+    + destruct IH as [H1 [H2 H3]]. right. split; [assumption|]. cbn. split; [constructor; assumption|]. split; [assumption|]. eapply prog_trans; eassumption.
+    + right. split; cbn; auto.
+    + right. split; cbn; auto.
+  - right. split; [exact Sc|]. cbn. split; [constructor|]. split; [assumption|apply prog_stay].
 Qed.
-Lemma many0_lay {A} l (RA : A -> A -> Prop) p : lay2 2 RA p -> lay2 l (Forall2 RA) (many0 p).
+Lemma many0_lay {A} l (RA : A -> A -> Prop) p : lay2 2 RA p -> consumes1 p -> lay2 l (Forall2 RA) (many0 p).
 Proof.
-  intros Hp. split; [apply mono_many0, Hp|]. intros st st' i i' Hs Hl. unfold many0. apply many0_aux_lay; auto. eapply lay_to2; eassumption.
+  intros Hp Hc. split; [apply mono_many0, Hp|]. intros st st' i i' Hs Hl. unfold many0. apply many0_aux_lay; auto. eapply lay_to2; eassumption.
 Qed.
 
 (* ================================================================ part 3: the grammar *)
@@ -870,10 +879,12 @@ Qed.
 Lemma char34_fails l z z' : lay l z z' -> forall st o, char_p 34 st (mkIn o z) = (st, Err) /\ char_p 34 st (mkIn o z') = (st, Err).
 Proof.
   intros H st o. unfold char_p, satisfy. cbn [rem].
-  destruct (lay_inv _ _ _ H) as [[E1 E2]|[[c [t [t' [E1 [E2 [_ [Hc _]]]]]]]|[c [t [c' [t' [E1 [E2 [T1 [T2 _]]]]]]]]]]; rewrite E1, E2; [auto| |].
-  - assert (E : (34 =? c) = false) by (apply N.eqb_neq; congruence). rewrite E. auto.
-  - assert (A : (34 =? c) = false) by (destruct (t5_cases c T1) as [?|[?|[?|[?|?]]]]; subst; reflexivity).
-    assert (B : (34 =? c') = false) by (destruct (t5_cases c' T2) as [?|[?|[?|[?|?]]]]; subst; reflexivity). rewrite A, B. auto.
+  assert (K : forall y, stop l y -> match y with [] => (st, @Err N) | c :: r => if 34 =? c then (st, Ok c (consume [c] r (mkIn o y))) else (st, Err) end = (st, Err)).
+  { intros [|c u] Hs; [reflexivity|]. cbn in Hs. destruct Hs as [T1 _].
+    assert (A : (34 =? c) = false) by (destruct (t5_cases c T1) as [?|[?|[?|[?|?]]]]; subst; reflexivity). rewrite A. reflexivity. }
+  destruct (lay_inv _ _ _ H) as [[c [t [t' [E1 [E2 [_ [Hc _]]]]]]]|[S1 S2]].
+  - rewrite E1, E2. assert (E : (34 =? c) = false) by (apply N.eqb_neq; congruence). rewrite E. auto.
+  - split; [destruct z|destruct z']; first [reflexivity|apply (K _ S1)|apply (K _ S2)].
 Qed.
 Lemma quote_dead w : dead 2 (wr w (char_p 34)).
 Proof.
@@ -962,7 +973,7 @@ Proof.
   destruct (wr (slot W_arg_list 2) item s r) as [t [nx u| |b]]; cbn [fst snd] in *; auto. apply mono_arg_list_loop; assumption.
 Qed.
 Lemma tprog_le z y z' y' : tprog z y z' y' -> (length y <= length z)%nat /\ (length y' <= length z')%nat.
-Proof. intros [[A B]|[A B]]; [lia|subst; lia]. Qed.
+Proof. intros H. exact H. Qed.
 Lemma arg_list_loop_lay {T} (RT : T -> T -> Prop) (item : parser T) : lay2 2 RT item ->
   forall f f' acc acc' cur cur' st st' i i', (length (rem i) < f)%nat -> (length (rem i') < f')%nat ->
     Forall2 (Ritem RT) acc acc' -> Rloc RT cur cur' -> SRC st st' -> lay 2 (rem i) (rem i') ->
@@ -1016,9 +1027,16 @@ Qed.
 Lemma tight_ok : forallb (fun e : text * binop => op_ok (fst e)) ExprGrammar.tight_ops = true. Proof. reflexivity. Qed.
 Lemma loose_ok : forallb (fun e : text * binop => op_ok (fst e)) ExprGrammar.loose_ops = true. Proof. reflexivity. Qed.
 
+Lemma cons_operator table : forallb (fun e : text * binop => op_ok (fst e)) table = true -> consumes1 (operator table).
+Proof.
+  intros H. unfold operator. apply PP.cons_alts_map. apply Forall_forall. intros e He. rewrite forallb_forall in H. specialize (H e He).
+  apply PP.cons_map, PP.cons_tag. destruct (fst e); [discriminate|discriminate].
+Qed.
+
 Section ExprL.
   Variable pe : parser (located expr).
   Hypothesis Hpe : lay2 2 (Rloc Rexp) pe.
+  Hypothesis Hsh : PP.mono pe.
 
   Lemma expression_arg_list_lay : lay2 2 Rargs (expression_arg_list pe).
   Proof.
@@ -1063,13 +1081,15 @@ Section ExprL.
   Lemma expression_term_lay : lay2 2 (Rloc Rexp) (expression_term pe).
   Proof.
     unfold expression_term. eapply map_lay.
-    - apply pair_lay; [apply expression_factor_lay|]. apply many0_lay. apply pair_lay; [apply ws_operator_lay, tight_ok|apply expression_factor_lay].
+    - apply pair_lay; [apply expression_factor_lay|]. apply many0_lay; [apply pair_lay; [apply ws_operator_lay, tight_ok|apply expression_factor_lay]|].
+      apply PP.cons_pair_l; [apply PP.cons_wr, cons_operator, tight_ok|apply PP.mono_expression_factor, Hsh].
     - intros [x l] [x' l'] [Hx Hl]. apply fold_expressions_rel; assumption.
   Qed.
   Lemma expression_body_lay : lay2 2 (Rloc Rexp) (expression_body pe).
   Proof.
     unfold expression_body. eapply map_lay.
-    - apply pair_lay; [apply expression_term_lay|]. apply many0_lay. apply pair_lay; [apply ws_operator_lay, loose_ok|apply expression_term_lay].
+    - apply pair_lay; [apply expression_term_lay|]. apply many0_lay; [apply pair_lay; [apply ws_operator_lay, loose_ok|apply expression_term_lay]|].
+      apply PP.cons_pair_l; [apply PP.cons_wr, cons_operator, loose_ok|apply PP.mono_expression_term, Hsh].
     - intros [x l] [x' l'] [Hx Hl]. apply fold_expressions_rel; assumption.
   Qed.
 End ExprL.
@@ -1079,7 +1099,7 @@ Proof. split; [intros st i H; exact H|]. intros st st' i i' Hs _. right. split; 
 Lemma expression_fuel_lay fuel : lay2 2 (Rloc Rexp) (expression_fuel fuel).
 Proof.
   induction fuel as [|g IH]; cbn [expression_fuel]; [apply out_of_fuel_lay|].
-  pose proof (expression_body_lay _ IH) as [M H]. split; [exact M|exact H].
+  pose proof (expression_body_lay _ IH (PP.mono_expression_fuel g)) as [M H]. split; [exact M|exact H].
 Qed.
 
 (* the same parser with two amounts of fuel on the same text (blindness) around the lockstep run with common fuel *)
@@ -1155,6 +1175,16 @@ Proof.
   - apply alt_lexp; [apply take_while1_lexp; rej_tac|apply tag_lexp2; reflexivity].
   - apply many0_lexp. apply alt_lexp; [apply take_while1_lexp; rej_tac|apply tag_lexp2; reflexivity].
 Qed.
+Lemma cons_config_key : consumes1 config_key.
+Proof.
+  unfold config_key. apply PP.cons_recognize, PP.cons_pair_l; [apply PP.cons_alt; [apply PP.cons_alpha1|apply PP.cons_tag; discriminate]|].
+  apply PP.mono_many0, PP.mono_alt; [apply PP.mono_alphanumeric1|apply PP.mono_tag].
+Qed.
+Lemma cons_kvp p : PP.mono p -> consumes1 (kvp p).
+Proof.
+  intros H. unfold kvp. apply PP.cons_map, PP.cons_pair_l; [apply PP.cons_wr, cons_config_key|].
+  apply PP.mono_pair; [apply PP.mono_wr, PP.mono_char_p|]. apply PP.mono_wr, PP.mono_alt; [exact H|apply PP.mono_map, PP.mono_expression].
+Qed.
 Lemma kvp_lay p : lay2 2 Rtok p -> lay2 2 Rtok (kvp p).
 Proof.
   intros Hp. unfold kvp. eapply map_lay.
@@ -1162,16 +1192,16 @@ Proof.
     apply wr_lay. apply alt_lay; [exact Hp|]. eapply map_lay; [apply expression_lay|]. sc.
   - sc.
 Qed.
-Lemma config_map_body_lay p : lay2 2 Rtok p -> lay2 2 Rtok (config_map_body p).
+Lemma config_map_body_lay p : lay2 2 Rtok p -> PP.mono p -> lay2 2 Rtok (config_map_body p).
 Proof.
-  intros Hp. unfold config_map_body. eapply map_lay.
-  - apply pair_lay; [apply ch_lay; reflexivity|]. apply pair_lay; [apply many0_lay, kvp_lay, Hp|apply ch_lay; reflexivity].
+  intros Hp Hm. unfold config_map_body. eapply map_lay.
+  - apply pair_lay; [apply ch_lay; reflexivity|]. apply pair_lay; [apply many0_lay; [apply kvp_lay, Hp|apply cons_kvp, Hm]|apply ch_lay; reflexivity].
   - intros [l [inner r]] [l' [inner' r']] [_ [H _]]. unfold Rtok. cbn. f_equal. f_equal. f_equal. apply tokens_rel. exact H.
 Qed.
 Lemma config_map_fuel_lay fuel : lay2 2 Rtok (config_map_fuel fuel).
 Proof.
   induction fuel as [|g IH]; cbn [config_map_fuel]; [apply out_of_fuel_lay|].
-  pose proof (config_map_body_lay _ IH) as [M H]. split; [exact M|exact H].
+  pose proof (config_map_body_lay _ IH (PP.mono_config_map_fuel g)) as [M H]. split; [exact M|exact H].
 Qed.
 Lemma config_map_lay : lay2 2 Rtok config_map.
 Proof.
@@ -1224,12 +1254,13 @@ Lemma encoding_tags_ok : forallb (fun e : text * TextEncoding => nt5 (fst e)) en
 Section StatementsL.
   Variable ps : parser token.
   Hypothesis Hps : lay2 2 Rtok ps.
+  Hypothesis Hcons : consumes1 ps.
 
   Lemma block_lay : lay2 2 Rblk (block ps).
   Proof.
     unfold block. eapply map_lay.
     - apply pair_lay; [apply ch_lay; reflexivity|]. apply pair_lay.
-      + apply nested_lay, many0_lay. apply alt_lay; [exact Hps|apply error_impl_lay].
+      + apply nested_lay, many0_lay; [apply alt_lay; [exact Hps|apply error_impl_lay]|]. apply PP.cons_alt; [exact Hcons|apply PP.cons_error_impl].
       + apply expect_lay. apply ch_lay; reflexivity.
     - intros [l [inner r]] [l' [inner' r']] [_ [H Hr]]. unfold Rblk. cbn in *. rewrite (tokens_rel _ _ H).
       destruct r, r'; cbn in *; try contradiction; reflexivity.
@@ -1366,7 +1397,7 @@ End StatementsL.
 Lemma statement_fuel_lay fuel : lay2 2 Rtok (statement_fuel fuel).
 Proof.
   induction fuel as [|g IH]; cbn [statement_fuel]; [apply out_of_fuel_lay|].
-  pose proof (statement_body_lay _ IH) as [M H]. split; [exact M|exact H].
+  pose proof (statement_body_lay _ IH (PP.cons_statement_fuel g)) as [M H]. split; [exact M|exact H].
 Qed.
 (* the statement parser on two layouts of the same characters *)
 Theorem statement_lay : lay2 2 Rtok statement.
@@ -1388,8 +1419,8 @@ Lemma rest_lay0 : lay2 0 (fun a b : text => a = [] <-> b = []) rest.
 Proof.
   split; [intros st i H; exact H|]. intros st st' i i' Hs Hl. right. unfold rest. cbn [fst snd]. split; [exact Hs|].
   destruct (lay0_inv _ _ Hl) as [[Z1 Z2]|[c [t [t' [Z1 [Z2 _]]]]]]; rewrite Z1, Z2.
-  - split; [tauto|]. split; [apply lay_nil|]. right. cbn. rewrite Z1, Z2. auto.
-  - split; [split; discriminate|]. split; [apply lay_nil|]. left. cbn. rewrite Z1, Z2. cbn. lia.
+  - split; [tauto|]. split; [apply lay_nil|]. split; cbn; lia.
+  - split; [split; discriminate|]. split; [apply lay_nil|]. split; cbn; lia.
 Qed.
 Lemma eof_lay : lay2 2 Reof eof.
 Proof.
@@ -1399,8 +1430,15 @@ Qed.
 Lemma source_file_lay : lay2 2 Rfile source_file.
 Proof.
   unfold source_file. eapply map_lay.
-  - apply pair_lay; [|apply eof_lay]. apply many0_lay. apply alt_lay; [apply statement_lay|apply error_impl_lay].
+  - apply pair_lay; [|apply eof_lay]. apply many0_lay; [apply alt_lay; [apply statement_lay|apply error_impl_lay]|].
+    apply PP.cons_alt; [apply PP.cons_statement|apply PP.cons_error_impl].
   - intros [a t] [a' t'] [H1 H2]. exists a, t, a', t'. auto.
+Qed.
+Lemma source_file_rem st i s v r : source_file st i = (s, Ok v r) -> rem r = [].
+Proof.
+  unfold source_file, map_p, pair_p, eof, map_p. destruct (many0 (alt statement error) st i) as [s1 [l r1| |x]]; try discriminate.
+  change (slot W_eof 0) with W_mws. cbn [wr]. unfold mws, with_trivia. destruct (opt multiline_trivia s1 r1) as [s2 [t r2| |y]]; try discriminate.
+  unfold rest. cbn. intros E. inversion E. reflexivity.
 Qed.
 Lemma SRC_st0 : SRC st0 st0. Proof. repeat split. Qed.
 
@@ -1415,10 +1453,9 @@ Proof.
   destruct (rem r) eqn:Er; [|discriminate]. injection H1 as Htk Hd. subst toks1.
   assert (Hc : errors st = []) by (destruct (errors st); [reflexivity|apply (f_equal (@length _)) in Hd; rewrite rev_length in Hd; discriminate]).
   destruct H as [[D _]|[Sc H]]; [cbn in D; congruence|].
-  destruct (source_file st0 (mkIn 0 s2)) as [st' [toks' r'| |a']]; cbn in Sc, H; try contradiction.
-  destruct H as [[a [t [a' [t' [T1 [T2 [Ha Ht]]]]]]] [Hr _]]. rewrite Er in Hr.
-  assert (Er' : rem r' = []).
-  { destruct (lay_inv _ _ _ Hr) as [[_ Z]|[[c [u [u' [Z _]]]]|[c [u [c' [u' [Z _]]]]]]]; [exact Z|discriminate|discriminate]. }
+  destruct (source_file st0 (mkIn 0 s2)) as [st' [toks' r'| |a']] eqn:E2; cbn in Sc, H; try contradiction.
+  destruct H as [[a [t [a' [t' [T1 [T2 [Ha Ht]]]]]]] [Hr _]].
+  pose proof (source_file_rem _ _ _ _ _ E2) as Er'.
   rewrite Er'. destruct Sc as [_ [[C2 _] _]]. rewrite C2. exists toks'. split; [reflexivity|].
   subst toks toks'. unfold skeleton. rewrite !map_app. f_equal; [apply tokens_rel; exact Ha|].
   destruct t as [| | | | | |e| | | | | | | | | | | | | | | | |], t' as [| | | | | |e'| | | | | | | | | | | | | | | | |]; try contradiction.
@@ -1565,4 +1602,122 @@ Proof.
           apply lay_chunk; [reflexivity|discriminate|intros E; try discriminate E|].
           apply lay_chunk; [reflexivity|discriminate|intros E; try discriminate E|].
           apply lay_nil.
+Qed.
+
+(* trailing trivia on one side only: comments at the ends of the lines of the first text, none in the second *)
+Example layout_example_trailing : lay 2 [108; 100; 97; 32; 35; 49; 32; 47; 47; 32; 111; 110; 101; 10; 32; 32; 114; 116; 115; 32; 47; 42; 32; 116; 119; 111; 32; 42; 47; 32; 47; 47; 32; 116; 104; 114; 101; 101; 10] [108; 100; 97; 32; 35; 49; 10; 114; 116; 115; 10; 10].
+Proof.
+  apply lay_chunk; [reflexivity|discriminate|intros E; try discriminate E|].
+  apply lay_chunk; [reflexivity|discriminate|intros E; try discriminate E|].
+  apply lay_chunk; [reflexivity|discriminate|intros E; try discriminate E|].
+  eapply (lay_sl 2 _ _ [35; 49; 32; 47; 47; 32; 111; 110; 101; 10; 32; 32; 114; 116; 115; 32; 47; 42; 32; 116; 119; 111; 32; 42; 47; 32; 47; 47; 32; 116; 104; 114; 101; 101; 10] [35; 49; 10; 114; 116; 115; 10; 10] [35; 49; 32; 47; 47; 32; 111; 110; 101; 10; 32; 32; 114; 116; 115; 32; 47; 42; 32; 116; 119; 111; 32; 42; 47; 32; 47; 47; 32; 116; 104; 114; 101; 101; 10] [35; 49; 10; 114; 116; 115; 10; 10]); [lia|reflexivity|reflexivity|tl|tl|tl|tl| | |cbn; lia|cbn; lia|cbn; lia|cbn; lia].
+  {
+    apply lay_chunk; [reflexivity|discriminate|intros E; try discriminate E|].
+    apply lay_chunk; [reflexivity|discriminate|intros E; try discriminate E|].
+    eapply (lay_sl 2 _ _ [10; 32; 32; 114; 116; 115; 32; 47; 42; 32; 116; 119; 111; 32; 42; 47; 32; 47; 47; 32; 116; 104; 114; 101; 101; 10] [10; 114; 116; 115; 10; 10] [114; 116; 115; 32; 47; 42; 32; 116; 119; 111; 32; 42; 47; 32; 47; 47; 32; 116; 104; 114; 101; 101; 10] [114; 116; 115; 10; 10]); [lia|reflexivity|reflexivity|tl|tl|tl|tl| | |cbn; lia|cbn; lia|cbn; lia|cbn; lia].
+    {
+      eapply (lay_nl 1 _ _ [114; 116; 115; 32; 47; 42; 32; 116; 119; 111; 32; 42; 47; 32; 47; 47; 32; 116; 104; 114; 101; 101; 10] [114; 116; 115; 10; 10]); [lia|cbn; auto|cbn; auto|tl|tl| |cbn; lia|cbn; lia].
+        apply lay_chunk; [reflexivity|discriminate|intros E; try discriminate E|].
+        apply lay_chunk; [reflexivity|discriminate|intros E; try discriminate E|].
+        apply lay_chunk; [reflexivity|discriminate|intros E; try discriminate E|].
+        eapply (lay_sl 2 _ _ [10] [10; 10] [] []); [lia|reflexivity|reflexivity|tl|tl|tl|tl| | |cbn; lia|cbn; lia|cbn; lia|cbn; lia].
+        {
+          eapply (lay_nl 1 _ _ [] []); [lia|cbn; auto|cbn; auto|tl|tl| |cbn; lia|cbn; lia].
+            apply lay_nil.
+        }
+          apply lay_nil.
+    }
+      apply lay_chunk; [reflexivity|discriminate|intros E; try discriminate E|].
+      apply lay_chunk; [reflexivity|discriminate|intros E; try discriminate E|].
+      apply lay_chunk; [reflexivity|discriminate|intros E; try discriminate E|].
+      eapply (lay_sl 2 _ _ [10] [10; 10] [] []); [lia|reflexivity|reflexivity|tl|tl|tl|tl| | |cbn; lia|cbn; lia|cbn; lia|cbn; lia].
+      {
+        eapply (lay_nl 1 _ _ [] []); [lia|cbn; auto|cbn; auto|tl|tl| |cbn; lia|cbn; lia].
+          apply lay_nil.
+      }
+        apply lay_nil.
+  }
+    apply lay_chunk; [reflexivity|discriminate|intros E; try discriminate E|].
+    apply lay_chunk; [reflexivity|discriminate|intros E; try discriminate E|].
+    eapply (lay_sl 2 _ _ [10; 32; 32; 114; 116; 115; 32; 47; 42; 32; 116; 119; 111; 32; 42; 47; 32; 47; 47; 32; 116; 104; 114; 101; 101; 10] [10; 114; 116; 115; 10; 10] [114; 116; 115; 32; 47; 42; 32; 116; 119; 111; 32; 42; 47; 32; 47; 47; 32; 116; 104; 114; 101; 101; 10] [114; 116; 115; 10; 10]); [lia|reflexivity|reflexivity|tl|tl|tl|tl| | |cbn; lia|cbn; lia|cbn; lia|cbn; lia].
+    {
+      eapply (lay_nl 1 _ _ [114; 116; 115; 32; 47; 42; 32; 116; 119; 111; 32; 42; 47; 32; 47; 47; 32; 116; 104; 114; 101; 101; 10] [114; 116; 115; 10; 10]); [lia|cbn; auto|cbn; auto|tl|tl| |cbn; lia|cbn; lia].
+        apply lay_chunk; [reflexivity|discriminate|intros E; try discriminate E|].
+        apply lay_chunk; [reflexivity|discriminate|intros E; try discriminate E|].
+        apply lay_chunk; [reflexivity|discriminate|intros E; try discriminate E|].
+        eapply (lay_sl 2 _ _ [10] [10; 10] [] []); [lia|reflexivity|reflexivity|tl|tl|tl|tl| | |cbn; lia|cbn; lia|cbn; lia|cbn; lia].
+        {
+          eapply (lay_nl 1 _ _ [] []); [lia|cbn; auto|cbn; auto|tl|tl| |cbn; lia|cbn; lia].
+            apply lay_nil.
+        }
+          apply lay_nil.
+    }
+      apply lay_chunk; [reflexivity|discriminate|intros E; try discriminate E|].
+      apply lay_chunk; [reflexivity|discriminate|intros E; try discriminate E|].
+      apply lay_chunk; [reflexivity|discriminate|intros E; try discriminate E|].
+      eapply (lay_sl 2 _ _ [10] [10; 10] [] []); [lia|reflexivity|reflexivity|tl|tl|tl|tl| | |cbn; lia|cbn; lia|cbn; lia|cbn; lia].
+      {
+        eapply (lay_nl 1 _ _ [] []); [lia|cbn; auto|cbn; auto|tl|tl| |cbn; lia|cbn; lia].
+          apply lay_nil.
+      }
+        apply lay_nil.
+Qed.
+
+(* ... and at the end of the text: a comment, a line break and an empty line after the last statement against nothing *)
+Example layout_example_end : lay 2 [108; 100; 97; 32; 35; 49; 10; 114; 116; 115; 32; 47; 47; 32; 101; 110; 100; 10; 10] [108; 100; 97; 32; 35; 49; 32; 47; 42; 32; 120; 32; 42; 47; 10; 9; 114; 116; 115].
+Proof.
+  apply lay_chunk; [reflexivity|discriminate|intros E; try discriminate E|].
+  apply lay_chunk; [reflexivity|discriminate|intros E; try discriminate E|].
+  apply lay_chunk; [reflexivity|discriminate|intros E; try discriminate E|].
+  eapply (lay_sl 2 _ _ [35; 49; 10; 114; 116; 115; 32; 47; 47; 32; 101; 110; 100; 10; 10] [35; 49; 32; 47; 42; 32; 120; 32; 42; 47; 10; 9; 114; 116; 115] [35; 49; 10; 114; 116; 115; 32; 47; 47; 32; 101; 110; 100; 10; 10] [35; 49; 32; 47; 42; 32; 120; 32; 42; 47; 10; 9; 114; 116; 115]); [lia|cbn; auto|cbn; auto|tl|tl|tl|tl| | |cbn; lia|cbn; lia|cbn; lia|cbn; lia].
+  {
+    apply lay_chunk; [reflexivity|discriminate|intros E; try discriminate E|].
+    apply lay_chunk; [reflexivity|discriminate|intros E; try discriminate E|].
+    eapply (lay_sl 2 _ _ [10; 114; 116; 115; 32; 47; 47; 32; 101; 110; 100; 10; 10] [10; 9; 114; 116; 115] [114; 116; 115; 32; 47; 47; 32; 101; 110; 100; 10; 10] [114; 116; 115]); [lia|cbn; auto|cbn; auto|tl|tl|tl|tl| | |cbn; lia|cbn; lia|cbn; lia|cbn; lia].
+    {
+      eapply (lay_nl 1 _ _ [114; 116; 115; 32; 47; 47; 32; 101; 110; 100; 10; 10] [114; 116; 115]); [lia|cbn; auto|cbn; auto|tl|tl| |cbn; lia|cbn; lia].
+        apply lay_chunk; [reflexivity|discriminate|intros E; try discriminate E|].
+        apply lay_chunk; [reflexivity|discriminate|intros E; try discriminate E|].
+        apply lay_chunk; [reflexivity|discriminate|intros E; try discriminate E|].
+        eapply (lay_sl 2 _ _ [10; 10] [] [] []); [lia|cbn; auto|cbn; auto|tl|tl|tl|tl| | |cbn; lia|cbn; lia|cbn; lia|cbn; lia].
+        {
+          eapply (lay_nl 1 _ _ [] []); [lia|cbn; auto|cbn; auto|tl|tl| |cbn; lia|cbn; lia].
+            apply lay_nil.
+        }
+          apply lay_nil.
+    }
+      apply lay_chunk; [reflexivity|discriminate|intros E; try discriminate E|].
+      apply lay_chunk; [reflexivity|discriminate|intros E; try discriminate E|].
+      apply lay_chunk; [reflexivity|discriminate|intros E; try discriminate E|].
+      eapply (lay_sl 2 _ _ [10; 10] [] [] []); [lia|cbn; auto|cbn; auto|tl|tl|tl|tl| | |cbn; lia|cbn; lia|cbn; lia|cbn; lia].
+      {
+        eapply (lay_nl 1 _ _ [] []); [lia|cbn; auto|cbn; auto|tl|tl| |cbn; lia|cbn; lia].
+          apply lay_nil.
+      }
+        apply lay_nil.
+  }
+    apply lay_chunk; [reflexivity|discriminate|intros E; try discriminate E|].
+    apply lay_chunk; [reflexivity|discriminate|intros E; try discriminate E|].
+    eapply (lay_sl 2 _ _ [10; 114; 116; 115; 32; 47; 47; 32; 101; 110; 100; 10; 10] [10; 9; 114; 116; 115] [114; 116; 115; 32; 47; 47; 32; 101; 110; 100; 10; 10] [114; 116; 115]); [lia|cbn; auto|cbn; auto|tl|tl|tl|tl| | |cbn; lia|cbn; lia|cbn; lia|cbn; lia].
+    {
+      eapply (lay_nl 1 _ _ [114; 116; 115; 32; 47; 47; 32; 101; 110; 100; 10; 10] [114; 116; 115]); [lia|cbn; auto|cbn; auto|tl|tl| |cbn; lia|cbn; lia].
+        apply lay_chunk; [reflexivity|discriminate|intros E; try discriminate E|].
+        apply lay_chunk; [reflexivity|discriminate|intros E; try discriminate E|].
+        apply lay_chunk; [reflexivity|discriminate|intros E; try discriminate E|].
+        eapply (lay_sl 2 _ _ [10; 10] [] [] []); [lia|cbn; auto|cbn; auto|tl|tl|tl|tl| | |cbn; lia|cbn; lia|cbn; lia|cbn; lia].
+        {
+          eapply (lay_nl 1 _ _ [] []); [lia|cbn; auto|cbn; auto|tl|tl| |cbn; lia|cbn; lia].
+            apply lay_nil.
+        }
+          apply lay_nil.
+    }
+      apply lay_chunk; [reflexivity|discriminate|intros E; try discriminate E|].
+      apply lay_chunk; [reflexivity|discriminate|intros E; try discriminate E|].
+      apply lay_chunk; [reflexivity|discriminate|intros E; try discriminate E|].
+      eapply (lay_sl 2 _ _ [10; 10] [] [] []); [lia|cbn; auto|cbn; auto|tl|tl|tl|tl| | |cbn; lia|cbn; lia|cbn; lia|cbn; lia].
+      {
+        eapply (lay_nl 1 _ _ [] []); [lia|cbn; auto|cbn; auto|tl|tl| |cbn; lia|cbn; lia].
+          apply lay_nil.
+      }
+        apply lay_nil.
 Qed.
